@@ -283,6 +283,24 @@ class Body:
                 out.append(d)
         return out
 
+    def reaching_def(self, l, use_bb):
+        """for a local with several whole definitions in (mostly) straight-line code: the closest definition that dominates the
+        use block with no other definition of the local between it and the use; None when ambiguous"""
+        ds = self.whole_defs(l)
+        if len(ds) == 1:
+            return ds[0]
+        cands = [d for d in ds if self.dominates(d[1], use_bb) and not (d[0] == 'call' and d[1] == use_bb)]
+        if not cands:
+            return None
+        best = max(cands, key=lambda d: (len(self.dom[d[1]]), d[2] if d[0] == 'assign' else 10 ** 6))
+        reach = self.reachable_from(best[1])
+        for d in ds:
+            if d is best or d[1] in (use_bb, best[1]):
+                continue
+            if d[1] in reach and use_bb in self.reachable_from(d[1]):
+                return None
+        return best
+
     def norm_operand(self, o, depth=0):
         """symbolic normal form of an operand following single-definition temporaries.
         Returns a string such as 'arg2', '&(*arg1 as Memfs).0', 'const:5', 'call@bb7' or 'local_9'."""
